@@ -3,7 +3,7 @@ import json
 import os
 
 from . import core
-from .core import tlc, tlc_json_lines, opwv, trace_validate, write_ndjson, read_ndjson, finish
+from .core import tlc, tlc_json_lines, opwv, trace_validate, write_ndjson, read_ndjson, finish, apalache
 
 CHECKS = {}
 
@@ -61,6 +61,9 @@ def session_histories(ctx, pid):
 def c07(ctx):
     nn, rr = (24, 48) if ctx.quick else (72, 144)
     consts = {"NN": nn, "RR": rr}
+    # (0) symbolic: the same equivalence, turn invariance, full turn and centre for ALL integers (1e-4 degree units)
+    #     within +-4 turns, discharged by Apalache / z3 - not only on a lattice
+    apalache(ctx, "LimitsApa", "All")
     # (1) model: the code's centre/tolerance structure is arc membership, on the whole lattice
     tlc(ctx, "MC_Limits", constants=consts, workers=8)
     # (2) B1: exact lattice verdicts replayed into the three constructors
